@@ -101,6 +101,9 @@ def negative_controls(ctx, consts, traces, verdicts):
     if pick:
       break
   if not pick:
+    if ctx.violations:
+      ctx.neg_controls.append(dict(name='skipped: every recorded trace is flagged', rejected=True))
+      return
     raise Machinery('no clean relay trace with bytes on a wire for a negative control')
   i, j = pick
   a = copy.deepcopy(traces[i])
